@@ -651,7 +651,8 @@ class C05(Spec):
                  "programs) + differential correspondence of the model with the real headers on generated scripted-coroutine programs")
     level_text = ("Lean 4 theorems over an open executable model of coro_queue/suspend_point/async scheduling on one thread: one step "
                   "= one act (wake discard/await, park, pause, detach, start, co_await async, future await, co_return, "
-                  "install_queue_and_call enter/leave) by whoever runs; no-preempt, FIFO (enq = deq ++ ready), exactly-once, pause "
+                  "install_queue_and_call enter/leave, parallel()/parallel_resume()/thread-pool hand-over to another thread and the "
+                  "job that thread runs) by whoever runs; no-preempt, FIFO (enq = deq ++ ready), exactly-once, pause "
                   "round-robin, no re-entry, full drain proved for every act list, i.e. every program, any number of coroutines; the "
                   "model is tied to the headers by running 6k/200k generated programs through real cocls::async coroutines and the "
                   "model and diffing the complete event traces; a trace oracle evaluates the statement on the implementation's trace")
@@ -663,7 +664,10 @@ class C05(Spec):
                     "correspondence (harness/h_exec.cpp vs lean/Drivers/C05.lean) on generated programs",
                     "g++ coroutine lowering (symmetric transfer), promise/future resolution (C01/C02), mutex/queue hand-off (C07-C10) "
                     "as wake sources"]
-    assumptions = ["a coroutine handle is resumed only through the library (no raw h.resume() of a handle that is queued elsewhere)",
+    assumptions = ["other threads (pool worker, threads created by resume.h) are scheduled one at a time, each job to completion, "
+                   "while the thread that handed the work over is outside every activation (one legal schedule; concurrent "
+                   "activations on several threads share no executor state: the ready queue is thread-local)",
+                   "a coroutine handle is resumed only through the library (no raw h.resume() of a handle that is queued elsewhere)",
                    "coroutine bodies run in coroutine mode (they are entered through start/detach/suspend points, never by a raw "
                    "resume outside an installed queue)",
                    "co_await of a suspend point that contains the awaiting coroutine's own handle is outside the quantifier"]
